@@ -945,7 +945,8 @@ func TestGen(t *testing.T) {
 	c := vlib.NewCollector("C17", "V.C17.Run")
 	c.Rule = "layer (a): real SortServicesByCreationTime / serviceentry.sortServicesByCreationTime / sortConfigByCreationTime / " +
 		"sortMergedVirtualServicesByCreationTime / sortConfigBySelectorAndCreationTime / EndpointShards.Keys / initServiceRegistry " +
-		"(via PushContext.InitContext) / pickBest+pickFirstVisibleNamespace / mergeAllVirtualHosts+SortVirtualHosts / EDS locality " +
+		"(via PushContext.InitContext) / initSidecarScopes+getSidecarScope, AuthorizationPolicy/Telemetry/RequestAuthentication/PeerAuthentication per-namespace order " +
+		"and PushContext.EnvoyFilters over a config store stub listing in chosen orders / pickBest+pickFirstVisibleNamespace / mergeAllVirtualHosts+SortVirtualHosts / EDS locality " +
 		"grouping run on generated lists AND a permutation of them (small pools so that ties on every key prefix are common; " +
 		"zero times, sub-second times, three time zones; lists beyond pdqsort's insertion cutoff), comparator sign laws on triples; " +
 		"layer (b) EXPLORATION: digests of every CDS/LDS/RDS/EDS resource of sidecar and router proxies on the fake discovery " +
@@ -962,6 +963,9 @@ func TestGen(t *testing.T) {
 	genPickNs(t, c, &id, r.Sub(), vlib.Scale(60, 1200))
 	genMergeVh(c, &id, r.Sub(), vlib.Scale(30, 600))
 	genHostIdx(c, &id, r.Sub(), vlib.Scale(24, 300))
+	genSidecarPick(c, &id, r.Sub(), vlib.Scale(40, 600))
+	genCallSite(c, &id, r.Sub(), vlib.Scale(40, 600))
+	genEnvoyF(c, &id, r.Sub(), vlib.Scale(20, 300))
 	genLocality(t, c, &id, r.Sub(), vlib.Scale(12, 120))
 	genDirect(t, c, &id, r.Sub(), vlib.Scale(6, 42))
 	if err := c.Flush(); err != nil {
